@@ -14,6 +14,21 @@ func init() {
 		ruleHybridCandidates(r, k)
 		ruleHybridBranch(r, k)
 		ruleHybridRank(r, k)
+		// the modalities the hybrid search composes (anchors: fusion.go, flat / bm25 / metadata search)
+		ruleFusions(r, "C05")
+		if fk, err := kindByName(r.W, "flat"); err == nil {
+			ruleScanADM(r, "C05.ADM.flat", fk, admSpec{DEL: true, SKIP: true, THR: true})
+			ruleResultOrder(r, "C05.ORD.flat", fk)
+			ruleTopK(r, "C05.TOPK.flat", fk)
+			ruleVecAtomicAndRevive(r, fk)
+		}
+		if tk, err := textKindOf(r.W); err == nil {
+			ruleBM25ADM(r, "C05.ADM.bm25", tk)
+			ruleBM25TopK(r, "C05.HEAP.bm25", tk)
+		}
+		if mk, err := metaKindOf(r.W); err == nil {
+			ruleMetaFresh(r, "C05.FRESH.meta", mk)
+		}
 		r.FloorCheck("C05.CAND", 6)
 		r.FloorCheck("C05.BRANCH", 3)
 		r.FloorCheck("C05.K", 4)
